@@ -133,6 +133,8 @@ func (p *poller) Post(handler func()) error {
 	p.pending++
 	p.lck.Unlock()
 
+	verifPoint("post:after-append")
+
 	// Concurrent writes are thread safe for eventfds.
 	_, err := p.waker.Write(1)
 	return err
@@ -157,6 +159,8 @@ func (p *poller) Poll(timeoutMs int) (n int, err error) {
 	)
 	n = int(nn)
 
+	verifPoint("poll:after-wait")
+
 	if errno != 0 {
 		err = errno // we need to convert
 	}
@@ -175,6 +179,8 @@ func (p *poller) Poll(timeoutMs int) (n int, err error) {
 	}
 
 	for i := 0; i < int(n); i++ {
+		verifPoint("poll:batch-entry")
+
 		event := &p.events[i]
 
 		events := PollerEvent(event.Mask)
@@ -209,6 +215,8 @@ func (p *poller) dispatch() {
 			break
 		}
 	}
+
+	verifPoint("dispatch:before-lock")
 
 	p.lck.Lock()
 	for _, handler := range p.posts {
